@@ -4,7 +4,7 @@ ENTRY = {'title': 'Payload decoding conforms to the ecoNET wire layout for every
  'design_ref': 'DESIGN.md section 6 / C05',
  'technique': 'Lean 4 round-trip theorems decode(encode m ++ rest) = (valOf m, rest) for every structure and the whole sensor chain (wire layout '
               'written once as encoders = the specification) + correspondence: Lean-encoded messages decoded by the real frames, plus a malformed '
-              'stream',
+              'stream + code tie: the parameter-block, sensor-section (thermostat / mixer sensors, fuel level, fan / boiler power, statuses, outputs, temperatures, lambda, frame versions ...) and schedule decoders translated from their source text on each run (tools/py2lean.py) with kernel-checked `translated = decoder model` theorems (Props/TieStructParams, TieStructSensors, TieStructSections, TieStructSections2, TieStructSchedules, TieParams, TieUid)',
  'prop_modules': ['C05Sensors', 'C05Params', 'C05Ctx', 'C05CtxDevice', 'C05Device', 'C05Short', 'C05Uid', 'C05ShortParams', 'TieUid', 'TieParams', 'TieSchedule', 'TieStructParams', 'TieStructSensors', 'TieStructSections', 'TieStructSections2', 'TieStructSchedules'],
  'uses_tables': True,
  'level_text': 'Proof: for ALL well-formed abstract messages and ALL trailing bytes the decoder model run on the Lean-defined encoding returns '
